@@ -4,6 +4,7 @@ import (
 	"bytes"
 	"encoding/json"
 	"fmt"
+	"os"
 	"sort"
 	"strings"
 	"sync"
@@ -114,7 +115,7 @@ type c01Out struct {
 
 func runC01Plan(c *core.Ctx, p c01Plan, maxBeh int) (*c01Out, error) {
 	mod := fmt.Sprintf("MCgen_EpochKG_%d_%d", p.N, p.T)
-	res, err := tlc.Run(tlc.Opts{Module: mod, CfgText: p.cfg(true), Workers: c.Workers, Timeout: 20 * time.Minute,
+	res, err := tlc.Run(tlc.Opts{Module: mod, CfgText: p.cfg(true), Workers: 4, Timeout: 20 * time.Minute, HeapGB: 4,
 		Files: map[string][]byte{mod + ".tla": []byte("---- MODULE " + mod + " ----\nEXTENDS EpochKGMC\n====\n")}})
 	if err != nil {
 		return nil, err
@@ -161,8 +162,11 @@ func runC01Plan(c *core.Ctx, p c01Plan, maxBeh int) (*c01Out, error) {
 		maxb = th
 	}
 	out := &c01Out{plan: p, states: res.States, distinct: res.Distinct}
-	k := c.Workers
-	if len(maxb) < 4*k {
+	k := 3 // every chunk is validated by its own TLC run
+	if c.Thorough() {
+		k = 8
+	}
+	if len(maxb) < 100*k {
 		k = 1
 	}
 	per := (len(maxb) + k - 1) / k
@@ -336,6 +340,7 @@ func CheckC01(c *core.Ctx) int {
 	if c.Thorough() {
 		plans = append(plans, c01Plan{N: 5, T: 3, Idents: []string{"i1"}, Kinds: kinds}, c01Plan{N: 7, T: 4, Idents: []string{"i1"}, Kinds: []string{"valid", "otherEon"}})
 	}
+	plans = filterPlans(plans, func(p c01Plan) string { return fmt.Sprintf("%d-%d", p.N, p.T) })
 	maxBeh := 1500
 	if c.Thorough() {
 		maxBeh = 0
@@ -344,8 +349,30 @@ func CheckC01(c *core.Ctx) int {
 	violations := 0
 	var samples []any
 	var planInfo []any
-	for _, p := range plans {
-		o, err := runC01Plan(c, p, maxBeh)
+	// the plans of part A and part B run concurrently, at most cap(sem) at a time
+	sem := make(chan struct{}, 5)
+	aOuts := make([]*c01Out, len(plans))
+	aErrs := make([]error, len(plans))
+	var wg sync.WaitGroup
+	for i := range plans {
+		wg.Add(1)
+		go func(i int) {
+			defer wg.Done()
+			sem <- struct{}{}
+			defer func() { <-sem }()
+			aOuts[i], aErrs[i] = runC01Plan(c, plans[i], maxBeh)
+		}(i)
+	}
+	var bOut *c01bOut
+	bCode := core.ExitOK
+	wg.Add(1)
+	go func() {
+		defer wg.Done()
+		bOut, bCode = checkC01B(c, sem)
+	}()
+	wg.Wait()
+	for i, p := range plans {
+		o, err := aOuts[i], aErrs[i]
 		if err != nil {
 			fmt.Println("INCONCLUSIVE:", err)
 			return core.ExitInconclusive
@@ -375,9 +402,8 @@ func CheckC01(c *core.Ctx) int {
 			}
 		}
 	}
-	bOut, code := checkC01B(c)
-	if code == core.ExitInconclusive {
-		return code
+	if bCode == core.ExitInconclusive {
+		return bCode
 	}
 	if bOut != nil {
 		states += bOut.states
@@ -399,4 +425,19 @@ func CheckC01(c *core.Ctx) int {
 	}
 	fmt.Printf("OK property=C01 tier=%s\n", c.Tier)
 	return core.ExitOK
+}
+
+// filterPlans is a development aid: VERIF_GOSSIP_ONLY=<n>-<t> keeps only the plans of that (n,t).
+func filterPlans[P any](plans []P, name func(P) string) []P {
+	only := os.Getenv("VERIF_GOSSIP_ONLY")
+	if only == "" {
+		return plans
+	}
+	var keep []P
+	for _, p := range plans {
+		if name(p) == only {
+			keep = append(keep, p)
+		}
+	}
+	return keep
 }
